@@ -159,13 +159,167 @@ theorem child_first_observations (par : Proc) (s : Sig) (rest : List SOp) :
   rw [hl, hc]
   rfl
 
-/-- the parent's own pending set is untouched by the child's inspection (and the parent gets SIGCHLD
-    according to its own mask and disposition afterwards) -/
+/-- the parent's own pending set is untouched by the child's inspection (the parent gets SIGCHLD
+    according to its own mask and disposition afterwards, and has one more reaped child) -/
 theorem parent_after_inspecting_child (par : Proc) :
-    (runChild par [.pend, .mask]).1 = generate par .CHLD ∧ (runChild par [.pend, .mask]).2.2 = .exited 0 := by
+    (runChild par [.pend, .mask]).1 = { generate par .CHLD with reaped := par.reaped + 1 } ∧
+    (runChild par [.pend, .mask]).2.2 = .exited 0 := by
   simp [runChild, childOps, sstep, Proc.alive, fork, exit]
 
 example : ∃ more, (runChild (generate (block Proc.init [.USR1]) .USR1) [.pend, .mask, .get .USR1, .caught]).2.1 =
     .sigs [] :: .sigs [.USR1] :: .disp .dfl :: .sigs [] :: more := ⟨[], by decide⟩
+
+
+/-! ## exit statuses have 8 bits; a reaped child is gone -/
+
+/-- the status of the process, if it is "exited", fits into 8 bits -/
+def Ok8 (p : Proc) : Prop := ∀ n, p.status = .exited n → n < 256
+
+theorem ok8_of_status_eq {p q : Proc} (h : Ok8 p) (hs : q.status = p.status) : Ok8 q := by
+  intro n hn; exact h n (hs ▸ hn)
+
+theorem ok8_deliver {p : Proc} (h : Ok8 p) (s : Sig) : Ok8 (deliver p s) := by
+  unfold deliver
+  split
+  · exact ok8_of_status_eq h rfl
+  · exact h
+  · split
+    · exact h
+    · intro n hn; simp at hn
+
+theorem ok8_generate {p : Proc} (h : Ok8 p) (s : Sig) : Ok8 (generate p s) := by
+  unfold generate
+  split
+  · exact h
+  · split
+    · intro n hn; simp at hn
+    · split
+      · exact ok8_of_status_eq h rfl
+      · exact ok8_deliver h s
+
+theorem ok8_flushList (r : List Sig) : ∀ {p : Proc}, Ok8 p → Ok8 (flushList p r) := by
+  induction r with
+  | nil => intro p h; exact h
+  | cons s r ih =>
+    intro p h
+    unfold flushList
+    split
+    · exact ih (ok8_deliver (p := { p with pending := p.pending.erase s }) (ok8_of_status_eq h rfl) s)
+    · exact ih h
+
+theorem ok8_setMask {p : Proc} (h : Ok8 p) (m : SigSet) : Ok8 (setMask p m) :=
+  ok8_flushList _ (ok8_of_status_eq h rfl)
+
+theorem ok8_exit (p : Proc) (h : Ok8 p) (n : Nat) : Ok8 (exit p n) := by
+  unfold exit
+  split
+  · intro m hm
+    simp at hm
+    omega
+  · exact h
+
+theorem ok8_sstep {me : Proc} (h : Ok8 me) (par : Option Proc) (op : SOp) : Ok8 (sstep me par op).1 := by
+  cases op <;> simp only [sstep]
+  case blk l => exact ok8_setMask h _
+  case unb l => exact ok8_setMask h _
+  case set l => exact ok8_setMask h _
+  case act s d =>
+    unfold act
+    dsimp only
+    split <;> exact ok8_of_status_eq h rfl
+  case get s => exact h
+  case raise s => exact ok8_generate h s
+  case kgrp s => exact ok8_generate h s
+  case kpar s => exact h
+  case pend => exact h
+  case mask => exact h
+  case caught => exact ok8_of_status_eq h rfl
+  case exit n => exact ok8_exit me h n
+  case klast s => exact h
+  case bad => exact h
+
+theorem ok8_childOps (ops : List SOp) : ∀ {c : Proc} (p : Proc), Ok8 c → Ok8 (childOps c p ops).1 := by
+  induction ops with
+  | nil => intro c p h; exact h
+  | cons op ops ih =>
+    intro c p h
+    unfold childOps
+    split
+    · exact h
+    · exact ih _ (ok8_sstep h (some p) op)
+
+/-- ★ Whatever a forked child does — any operations, any `exit N` with N as large as one likes — the
+    status the parent's `wait` reports for it, if it is an exit status, is below 256 … -/
+theorem child_exit_status_8bit (par : Proc) (ops : List SOp) (n : Nat)
+    (h : (runChild par ops).2.2 = .exited n) : n < 256 := by
+  have h0 : Ok8 (fork par) := by intro m hm; simp [fork] at hm
+  have h1 := ok8_childOps ops par h0
+  exact ok8_exit _ h1 0 n h
+
+/-- ★ … namely the low 8 bits of what the child passed to `exit`: a child whose first operation is
+    `exit n` is reported as exited with `n % 256` (`exit 300` → 44, `exit 256` → 0: success), whatever the
+    parent's state and whatever follows the `exit` in the child's list of operations. -/
+theorem child_exit_truncates (par : Proc) (n : Nat) (rest : List SOp) :
+    (runChild par (.exit n :: rest)).2.2 = .exited (n % 256) := by
+  have ha : (fork par).alive = true := rfl
+  have hs : (fork par).status = .running := rfl
+  have he : exit (fork par) n = { fork par with status := .exited (n % 256) } := by simp [exit, ha]
+  have hd : (exit (fork par) n).alive = false := by rw [he]; simp [Proc.alive]
+  simp only [runChild]
+  rw [childOps]
+  simp only [ha, Bool.not_true, Bool.false_eq_true, if_false, sstep, Option.getD]
+  cases rest with
+  | nil => rw [childOps]; simp only [he]; simp [exit, Proc.alive]
+  | cons op ops =>
+    rw [childOps]
+    simp only [hd, Bool.not_false, if_true]
+    simp only [he]; simp [exit, Proc.alive]
+
+example : (runChild Proc.init [.exit 300]).2.2 = .exited 44 ∧ (runChild Proc.init [.exit 256, .exit 1]).2.2 = .exited 0 ∧
+    (runChild Proc.init [.pend, .exit 65535]).2.2 = .exited 255 := by decide
+
+/-- ★ Once `wait` has reported a child's termination its process id names nothing: a signal sent to it —
+    also the null signal of `kill -0` — is answered ESRCH, and nothing else happens (no signal reaches the
+    parent or anyone else, no further SIGCHLD). -/
+theorem signal_to_reaped_child_esrch (par : Proc) (ops : List SOp) (s : Option Sig) (other : Option Proc) :
+    sstep (runChild par ops).1 other (.klast s) = ((runChild par ops).1, other, some .esrch) := by
+  simp [sstep, runChild]
+
+example : (sstep (runChild Proc.init [.exit 3]).1 none (.klast (some .TERM))).2.2 = some .esrch := by decide
+
+
+
+/-- ★ What `wait` reports for a child that a signal terminates: a child whose first operation sends itself a
+    signal that it neither blocks nor handles and whose default action is to terminate is reported as killed by
+    exactly that signal; SIGKILL does so whatever the inherited mask and dispositions are.  Nothing that
+    follows in the child's list of operations runs. -/
+theorem child_killed_status (par : Proc) (s : Sig) (rest : List SOp) :
+    (s = .KILL ∨ (par.mask s = false ∧ par.disp s = .dfl ∧ defaultIgnored s = false)) →
+    (runChild par (.raise s :: rest)).2.2 = .signaled s ∧ (runChild par (.raise s :: rest)).2.1 = [] := by
+  intro h
+  have ha : (fork par).alive = true := rfl
+  have hg : generate (fork par) s = { fork par with status := .signaled s } := by
+    rcases h with hk | ⟨hm, hd, hi⟩
+    · subst hk; simp [generate, ha]
+    · by_cases hk : s = .KILL
+      · subst hk; simp [generate, ha]
+      · have hm' : (fork par).mask s = false := hm
+        have hd' : (fork par).disp s = .dfl := hd
+        simp [generate, ha, hk, hm', deliver, hd', hi]
+  have hdead : (generate (fork par) s).alive = false := by rw [hg]; simp [Proc.alive]
+  simp only [runChild]
+  rw [childOps]
+  simp only [ha, Bool.not_true, Bool.false_eq_true, if_false, sstep, Option.getD, hdead]
+  cases rest with
+  | nil => rw [childOps]; simp only [hg]; simp [exit, Proc.alive]
+  | cons op ops =>
+    rw [childOps]
+    simp only [hdead, Bool.not_false, if_true]
+    simp only [hg]; simp [exit, Proc.alive]
+
+example : (runChild (block Proc.init [.KILL, .TERM]) [.raise .KILL, .exit 3]).2.2 = .signaled .KILL ∧
+    (runChild Proc.init [.raise .TERM, .pend]).2.2 = .signaled .TERM ∧
+    (runChild Proc.init [.raise .URG, .exit 7]).2.2 = .exited 7 := by decide
+
 
 end YashModel.Kernel.Signal
